@@ -20,7 +20,9 @@
 (*   renode    what a later json_to_pmutt of the same dictionary returned  *)
 (* Clauses (names of the failing ones are accumulated, verdicts are total):*)
 (*   Lifecycle, Raises, EncodesText, RegistryTotal, NestedDecoded,         *)
-(*   SameClass, ChildrenKept:<slot>, IdentifyingAttrsEqual:<attribute>,    *)
+(*   SameClass, ChildrenKept:<slot>, ChildrenOrder:<slot> (children of a   *)
+(*   list slot come back permuted; children are also compared position by  *)
+(*   position), IdentifyingAttrsEqual:<attribute>,                         *)
 (*   GettersEqual:<getter>, DictUntouched, Repeatable.                     *)
 (* Numbers: JSON text round-trips doubles exactly, so attribute values     *)
 (* must be EQUAL as 17-digit decimals; getter results are compared to      *)
@@ -76,15 +78,22 @@ NodeLevel(e) ==
    IF e.kind = "dict" THEN (IF e.tagok THEN {"NestedDecoded"} ELSE {"RegistryTotal"})
    ELSE IF ~NodeOK(e) THEN {"SameClass"} ELSE {}
 SlotFails(e) == {e.slots[i][1] : i \in {j \in 1..Len(e.slots) : e.slots[j][2] # e.slots[j][3]}}
+\* same children, other order: the sequences of child signatures differ but hold the same elements
+Elems(q) == {q[i] : i \in 1..Len(q)}
+OrderFails(e) == {e.slots[i][1] : i \in {j \in 1..Len(e.slots) :
+                     /\ e.slots[j][2] = e.slots[j][3]
+                     /\ e.slots[j][4] # e.slots[j][5]
+                     /\ Elems(e.slots[j][4]) = Elems(e.slots[j][5])}}
 AttrFails(e) == {i \in 1..Len(e.attrs) : ~SameVal(e.attrs[i][3], e.attrs[i][4])}
 NodeClauses(e) ==
    NodeLevel(e)
    \cup (IF NodeOK(e) THEN {"ChildrenKept:" \o s : s \in SlotFails(e)}
+                           \cup {"ChildrenOrder:" \o s : s \in OrderFails(e)}
                            \cup {"IdentifyingAttrsEqual:" \o e.attrs[i][1] : i \in AttrFails(e)}
          ELSE {})
 \* does this node spoil the getters of itself and of its ancestors?
 NodeDirty(e) == \/ ~NodeOK(e)
-                \/ SlotFails(e) # {}
+                \/ SlotFails(e) # {} \/ OrderFails(e) # {}
                 \/ \E i \in AttrFails(e) : e.attrs[i][2]
 
 \* ---- getters
